@@ -127,6 +127,7 @@ func plant(t *rapid.T, set *ymodel.Set) string {
 	type site struct {
 		t *ymodel.TypeRef
 		b *ymodel.Body
+		m *ymodel.Module
 	}
 	var sites []site
 	var bodies []*ymodel.Body
@@ -135,14 +136,14 @@ func plant(t *rapid.T, set *ymodel.Set) string {
 		walk = func(b *ymodel.Body) {
 			bodies = append(bodies, b)
 			for _, td := range b.Typedefs {
-				sites = append(sites, site{td.Type, b})
+				sites = append(sites, site{td.Type, b, m})
 			}
 			for _, g := range b.Groupings {
 				walk(&g.Body)
 			}
 			for _, n := range b.Nodes {
 				if n.Type != nil {
-					sites = append(sites, site{n.Type, b})
+					sites = append(sites, site{n.Type, b, m})
 				}
 				switch n.Kind {
 				case ymodel.KContainer, ymodel.KList, ymodel.KRPC, ymodel.KAction, ymodel.KInput, ymodel.KOutput, ymodel.KNotification:
@@ -151,7 +152,7 @@ func plant(t *rapid.T, set *ymodel.Set) string {
 					// descend without offering the body itself as a typedef site
 					for _, ch := range n.Nodes {
 						if ch.Type != nil {
-							sites = append(sites, site{ch.Type, &n.Body})
+							sites = append(sites, site{ch.Type, &n.Body, m})
 						}
 					}
 				}
@@ -159,8 +160,20 @@ func plant(t *rapid.T, set *ymodel.Set) string {
 		}
 		walk(&m.Body)
 	}
-	kind := rapid.SampledFrom([]string{"unknown", "unknown", "unknown-prefix", "cyclic", "cyclic"}).Draw(t, "fault")
+	kind := rapid.SampledFrom([]string{"unknown", "unknown", "unknown-prefix", "cyclic", "cyclic", "prefixed-built-in-name"}).Draw(t, "fault")
 	switch kind {
+	case "prefixed-built-in-name":
+		// a built-in name behind a prefix is the name of a typedef, and there is none of that name
+		if len(sites) == 0 {
+			return ""
+		}
+		s := sites[rapid.IntRange(0, len(sites)-1).Draw(t, "site")]
+		pfx := []string{s.m.Prefix, "zz"}
+		for _, im := range s.m.Imports {
+			pfx = append(pfx, im.Prefix)
+		}
+		*s.t = ymodel.TypeRef{Prefix: rapid.SampledFrom(pfx).Draw(t, "prefix"), Name: rapid.SampledFrom([]string{"string", "uint8", "boolean", "int32", "empty", "binary"}).Draw(t, "built-in")}
+		return kind
 	case "unknown", "unknown-prefix":
 		if len(sites) == 0 {
 			return ""
@@ -203,7 +216,7 @@ func TestCheck(t *testing.T) {
 	ev.Run(t, ev.Spec[Case]{
 		ID:    "C09",
 		Level: "exploration",
-		Rule: "module sets from the schema model with typedefs at module, submodule, container, list, grouping, rpc, action, input, output and notification scope, all named from a pool of three (heavy shadowing), chained through restrictions across module and submodule borders, referenced without prefix, with the own prefix and with foreign prefixes drawn from a pool of four (so one module's prefix for another equals a third module's own prefix); every typedef carries a unique units mark (and often a default) so a wrong binding is observable; one sixth of the cases plant an unknown name, an unknown prefix or a derivation cycle of length 1-3. " +
+		Rule: "module sets from the schema model with typedefs at module, submodule, container, list, grouping, rpc, action, input, output and notification scope, all named from a pool of three (heavy shadowing), chained through restrictions across module and submodule borders, referenced without prefix, with the own prefix and with foreign prefixes drawn from a pool of four (so one module's prefix for another equals a third module's own prefix); every typedef carries a unique units mark (and often a default) so a wrong binding is observable; one sixth of the cases plant an unknown name, an unknown prefix, a built-in name behind an own, imported or unknown prefix, or a derivation cycle of length 1-3. " +
 			"Oracle: reference binder + type folding over the model (never goyang): for each leaf and leaf-list the resolved type's kind, name, units, default, fraction-digits, patterns in order, enum/bit maps, path, union members, range/length sets and DefaultValues() equal the folded reference, compared after the whole set is processed; a valid set must not be rejected by type resolution; a planted fault must yield an error. " +
 			"Non-trivial = >= 2 typedefs and >= 2 references to typedefs, or a planted fault; distinct by (set, order)",
 		Assumptions: []string{
